@@ -184,6 +184,8 @@ def rows_match(expected, actual, ordered):
 def run_sqlite(schema, data, sql):
     # the generic target may emit `OFFSET n` without LIMIT (standard SQL); SQLite spells that LIMIT -1 OFFSET n
     sql = re.sub(r"(LIMIT -?\d+ )?OFFSET (\d+)", lambda m: m.group(0) if m.group(1) else f"LIMIT -1 OFFSET {m.group(2)}", sql)
+    # `UNION DISTINCT` etc. (standard SQL, emitted for the generic target) is spelt without the keyword in SQLite
+    sql = re.sub(r"\b(UNION|EXCEPT|INTERSECT) DISTINCT\b", r"\1", sql)
     con = sqlite3.connect(":memory:")
     try:
         for t, cols in schema.items():
